@@ -514,11 +514,33 @@ async fn run_scenario(sc: &Value, dir: &str, rec: &Rec) -> String {
                 // start several processes from racing OS threads
                 let items = op["items"].as_array().cloned().unwrap_or_default();
                 let k = op.get("threads").and_then(|x| x.as_u64()).unwrap_or(2).max(1) as usize;
-                let bar = Arc::new(Barrier::new(k));
+                // dups: further starts (meant to repeat a pid of `items`), each from its own thread after delay_us
+                let dups = op.get("dups").and_then(|x| x.as_array()).cloned().unwrap_or_default();
+                let bar = Arc::new(Barrier::new(k + dups.len()));
                 let h = tokio::runtime::Handle::current();
                 let out: Arc<Mutex<Vec<Value>>> = Arc::new(Mutex::new(vec![]));
+                let dout: Arc<Mutex<Vec<Value>>> = Arc::new(Mutex::new(vec![]));
                 sh.busy.fetch_add(1, Ordering::SeqCst);
-                let hs: Vec<_> = (0..k)
+                let mut hs: Vec<_> = dups
+                    .iter()
+                    .cloned()
+                    .enumerate()
+                    .map(|(i, it)| {
+                        let (ex, bar, h, dout) = (ex.clone(), bar.clone(), h.clone(), dout.clone());
+                        std::thread::spawn(move || {
+                            let _g = h.enter();
+                            bar.wait();
+                            let d = it.get("delay_us").and_then(|x| x.as_u64()).unwrap_or(0);
+                            if d > 0 {
+                                std::thread::sleep(Duration::from_micros(d));
+                            }
+                            let vars: Vars = it.get("vars").cloned().unwrap_or(json!({})).into();
+                            let r = ex.proc().start(s(&it, "mid", ""), &vars);
+                            lock(&dout).push(json!({"i": i, "ok": r.is_ok(), "err": r.as_ref().err().map(|e| short(&e.to_string()))}));
+                        })
+                    })
+                    .collect();
+                let hs2: Vec<_> = (0..k)
                     .map(|ti| {
                         let (ex, bar, h, out) = (ex.clone(), bar.clone(), h.clone(), out.clone());
                         let mine: Vec<(usize, Value)> = items.iter().cloned().enumerate().filter(|(i, _)| i % k == ti).collect();
@@ -533,11 +555,14 @@ async fn run_scenario(sc: &Value, dir: &str, rec: &Rec) -> String {
                         })
                     })
                     .collect();
+                hs.extend(hs2);
                 let _ = tokio::task::spawn_blocking(move || hs.into_iter().for_each(|h| { let _ = h.join(); })).await;
                 sh.busy.fetch_sub(1, Ordering::SeqCst);
                 let mut v = lock(&out).clone();
                 v.sort_by_key(|x| x["i"].as_u64());
-                json!({"results": v})
+                let mut dv = lock(&dout).clone();
+                dv.sort_by_key(|x| x["i"].as_u64());
+                json!({"results": v, "dups": dv})
             }
             "quiesce" => {
                 if !quiesce(&sh, qto).await {
@@ -664,6 +689,75 @@ async fn run_scenario(sc: &Value, dir: &str, rec: &Rec) -> String {
                 }
                 json!({"t_before": before, "t_after": now_ms()})
             }
+            "tick_race" => {
+                // one tick released together with client calls (acks of delivered messages and actions), each on its
+                // own OS thread: the tick reads and rewrites message rows while the clients change their status
+                let before = now_ms();
+                let sel = &op["select"];
+                let ids: Vec<String> = if sel.is_object() {
+                    lock(rec)
+                        .iter()
+                        .filter(|r| r["t"] == "deliver" && ["chan", "key", "state", "pid", "type", "id", "nid"].iter().all(|k| sel.get(*k).map(|v| &r[*k] == v).unwrap_or(true)))
+                        .map(|r| r["id"].as_str().unwrap_or("").to_string())
+                        .collect::<BTreeSet<_>>()
+                        .into_iter()
+                        .collect()
+                } else {
+                    vec![]
+                };
+                let calls: Vec<(String, String, String, Value)> = op["calls"]
+                    .as_array()
+                    .cloned()
+                    .unwrap_or_default()
+                    .iter()
+                    .map(|c| {
+                        let (pid, tid) = resolve(&rig.engine, &c["target"]);
+                        (pid, tid, s(c, "action", "next").to_string(), c.get("options").cloned().unwrap_or(json!({})))
+                    })
+                    .collect();
+                let spin = op.get("spin_us").and_then(|x| x.as_u64()).unwrap_or(0);
+                let bar = Arc::new(Barrier::new(2 + calls.len()));
+                let h = tokio::runtime::Handle::current();
+                sh.busy.fetch_add(1, Ordering::SeqCst);
+                let mut hs = vec![];
+                {
+                    let (ex, sh, bar, h, ids) = (ex.clone(), sh.clone(), bar.clone(), h.clone(), ids.clone());
+                    hs.push(std::thread::spawn(move || {
+                        let _g = h.enter();
+                        bar.wait();
+                        let mut n = 0;
+                        for id in &ids {
+                            if spin > 0 {
+                                std::thread::sleep(std::time::Duration::from_micros(spin));
+                            }
+                            if do_ack(&ex, &sh, id, "race") {
+                                n += 1;
+                            }
+                        }
+                        n > 0
+                    }));
+                }
+                for (pid, tid, action, options) in calls.iter().cloned() {
+                    let (ex, sh, bar, h) = (ex.clone(), sh.clone(), bar.clone(), h.clone());
+                    hs.push(std::thread::spawn(move || {
+                        let _g = h.enter();
+                        bar.wait();
+                        do_action(&ex, &sh, &pid, &tid, &action, &options, "race").0
+                    }));
+                }
+                {
+                    let bar = bar.clone();
+                    let _ = tokio::task::spawn_blocking(move || bar.wait()).await;
+                }
+                rig.engine.verif_tick();
+                let oks = tokio::task::spawn_blocking(move || hs.into_iter().map(|h| h.join().unwrap_or(false)).collect::<Vec<bool>>()).await.unwrap_or_default();
+                sh.busy.fetch_sub(1, Ordering::SeqCst);
+                if !quiesce(&sh, qto).await {
+                    status = "inconclusive".into();
+                    break 'ops;
+                }
+                json!({"t_before": before, "t_after": now_ms(), "acked": ids, "results": oks})
+            }
             "advance" => {
                 verif::advance_clock_ms(op["ms"].as_i64().unwrap_or(0));
                 json!({"now": now_ms(), "offset": verif::clock_offset_ms()})
@@ -749,6 +843,14 @@ async fn run_scenario(sc: &Value, dir: &str, rec: &Rec) -> String {
             "roundtrip" => roundtrip(&yaml_of(&op["yaml"])),
             "store" => store_op(&rig.engine, op),
             "api" => api_op(&ex, op),
+            "yield" => {
+                // let the other tasks of the runtime take n turns (on a current-thread runtime: exactly n rounds of
+                // the run queue), without waiting for quiescence
+                for _ in 0..op["n"].as_u64().unwrap_or(1) {
+                    tokio::task::yield_now().await;
+                }
+                json!({"ok": true})
+            }
             "sleep_ms" => {
                 tokio::time::sleep(Duration::from_millis(op["ms"].as_u64().unwrap_or(1))).await;
                 json!({"ok": true})
